@@ -341,6 +341,12 @@ func c12Gen(g *core.Gen) {
 				g.Emit(&c12Case{Kind: "race", Len: l, D: 3, P: 2, GLo: 1, GHi: 9, Procs: procs})
 				g.Emit(&c12Case{Kind: "race", Len: l, D: 3, P: 2, GLo: 1, GHi: 9, Procs: procs, Odd: true})
 			}
+			// many input shards, shards shorter than 16 bytes per goroutine
+			for _, d := range []int{129, 300} {
+				for _, l := range []int{4, 36, 100} {
+					g.Emit(&c12Case{Kind: "race", Len: l, D: d, P: 2, GLo: 1, GHi: 9, Procs: procs})
+				}
+			}
 			g.Emit(&c12Case{Kind: "race", Len: 0, Procs: procs})
 			g.Emit(&c12Case{Kind: "race", Len: -1, Procs: procs})
 		}
@@ -389,6 +395,12 @@ func c12Gen(g *core.Gen) {
 	}
 	for d := 60; d <= 130; d++ {
 		g.Emit(&c12Case{Kind: "partition", Len: 4096, D: d, P: 1, GLo: 1, GHi: 4})
+	}
+	// many input shards x short shards x goroutine counts beyond the number of 16-byte units
+	for _, d := range []int{127, 128, 129, 130, 255, 256, 257, 300, 1000} {
+		for _, l := range []int{2, 4, 16, 18, 34, 64, 100} {
+			g.Emit(&c12Case{Kind: "partition", Len: l, D: d, P: 2, GLo: 1, GHi: 20})
+		}
 	}
 	// the DEFAULT goroutine count (option 0 / negative: derived from the machine) under every GOMAXPROCS 1..4 and 16
 	for _, procs := range []int{1, 2, 3, 4, 16} {
@@ -541,9 +553,9 @@ func init() {
 		ID:      "C12",
 		AltArch: true, // the alternate binary here is the -race build
 		Level:   "model_checking",
-		Rule: "(i) partition arithmetic, full product through the real GenerateParity/ReconstructData: every even shard length 2..600 (+1024..65550) x goroutine count 1..40 (and > number of 16-byte units) x codes (2,2),(3,2), and every even length 2..200 x g 1..16 x codes (6,5),(9,8) (several missing rows per goroutine), compared with g=1 (the data list is a window into a longer list whose entries behind it must stay untouched); every row count 1..40 x 64 KiB shards and 60..130 x 4 KiB shards x g 1..3; the (3,2) code also with every input shard displaced to an odd address inside a larger buffer; " +
-			"(ii) controlled-scheduler exploration of the real worker goroutines (sources instrumented from the current tree and injected with go build -overlay): for encode and reconstruct configurations (workers x kernel calls), EVERY interleaving at kernel-call/synchronisation granularity (unbounded), and every interleaving with <=2 (thorough 3) preemptions at statement granularity; per execution: output == single-goroutine bytes, recorded kernel access sets of different workers conflict-free, no deadlock; " +
-			"(iii) Create / Repair through par2 for g in 1..12, and for the default count (option 0 / -1) under GOMAXPROCS {1,2,3,4,16}, byte-identical to g=1, over three damage kinds (beyond capacity, one slice hit, shortest file deleted) x {no, each} recovery block spoiled inside a well-formed packet with DoubleCheck on; (iv) the same bodies free-running under the race detector (separate -race build, GOMAXPROCS 1,2,4,16), plus four goroutines using matrices and coders of their own concurrently. non-trivial = executions with >=2 runnable threads at some choice point / g>1 cases",
+		Rule: "(i) partition arithmetic, full product through the real GenerateParity/ReconstructData: every even shard length 2..600 (+1024..65550) x goroutine count 1..40 (and > number of 16-byte units) x codes (2,2),(3,2), and every even length 2..200 x g 1..16 x codes (6,5),(9,8) (several missing rows per goroutine), compared with g=1 (the data list is a window into a longer list whose entries behind it must stay untouched); every row count 1..40 x 64 KiB shards and 60..130 x 4 KiB shards x g 1..3; row counts {127..130,255..257,300,1000} x short shards {2..100} x g 1..19; the (3,2) code also with every input shard displaced to an odd address inside a larger buffer; " +
+			"(ii) controlled-scheduler exploration of the real worker goroutines (sources instrumented from the current tree and injected with go build -overlay): for encode and reconstruct configurations (workers x kernel calls), EVERY interleaving at kernel-call/synchronisation granularity (unbounded), and every interleaving with <=2 (thorough 3) preemptions at statement granularity; three configurations with 129/130 input shards at kernel granularity with <=1 preemption; per execution: output == single-goroutine bytes, recorded kernel access sets of different workers conflict-free, no deadlock; " +
+			"(iii) Create / Repair through par2 for g in 1..12, and for the default count (option 0 / -1) under GOMAXPROCS {1,2,3,4,16}, byte-identical to g=1, over three damage kinds (beyond capacity, one slice hit, shortest file deleted) x {no, each} recovery block spoiled inside a well-formed packet with DoubleCheck on; (iv) the same bodies free-running under the race detector (separate -race build, GOMAXPROCS 1,2,4,16; also codes with 129 and 300 input shards), plus four goroutines using matrices and coders of their own concurrently. non-trivial = executions with >=2 runnable threads at some choice point / g>1 cases",
 		Assumptions: []string{"the controlled scheduler is sequentially consistent; weak-memory effects are covered only by the race-detector pass (no race => SC)", "scheduling points: spawn, exit, WaitGroup/Mutex operations, kernel calls, and (statement granularity) every statement of the instrumented files"},
 		NewCase:     func() interface{} { return &c12Case{} },
 		Gen:         c12Gen,
